@@ -565,6 +565,32 @@ def check_formats(ctx, rule="C06.R10"):
     return n
 
 
+SWALLOW_FROZEN = {
+    "NullTerminated._parse": "documented: with require=False the end of the stream ends the string (the handler re-raises when require is set, C08.R2)",
+    "GreedyRange._parse": "documented: the element loop ends on *any* failure inside an iteration; its own tell sits in that iteration, and the handler's seek back fails loudly on a stream that cannot tell/seek",
+}
+
+
+def check_stream_swallow(ctx, fi, cls, rule="C06.R11"):
+    """A StreamError raised by a stream helper (failed or short read, failed seek/tell) is never swallowed: a failing stream must not be
+    mistaken for the end of the data."""
+    paths = paths_of(ctx, fi, cls)
+    verdict = {}
+    for p in paths:
+        for i, e in enumerate(p.events):
+            if e.kind not in ("READ", "READALL", "TELL", "SEEK", "WRITE") or not e.raised or e.depth:
+                continue
+            nxt = p.events[i + 1] if i + 1 < len(p.events) else None
+            if nxt is None or nxt.kind != "CATCH":
+                continue
+            swallowed = any(x.kind == "ENDCATCH" and x["tid"] == nxt["tid"] and x["handler"] == nxt["handler"] for x in p.events[i + 2:])
+            k = id(e.node)
+            verdict[k] = (verdict.get(k, (True,))[0] and (not swallowed or fi.qual in SWALLOW_FROZEN), e)
+    for ok, e in verdict.values():
+        ctx.ob(rule, fi, ok, "the handler around %s does not end normally: a failing stream is reported, not taken for the end of the data" % e.kind, node=e.node, key="swallowed %s" % e.kind, detail=SWALLOW_FROZEN.get(fi.qual))
+    return len(verdict)
+
+
 def check_wrappers(ctx, rule="C06.R9"):
     """The stream wrappers pass failures of the stream they wrap on: no handler around a call on the wrapped stream ends normally
     (a swallowed read error would turn into end-of-data and a silently truncated value)."""
@@ -641,11 +667,26 @@ def run(ctx):
     C15.rot_length_guard(ctx, "C06.R3")         # group indexing of parsed data is dominated by the multiple-of-group guard (else IndexError escapes)
     check_wrappers(ctx)
     ctx.floor("C06.R9", 10)
+    n11 = sum(check_stream_swallow(ctx, fi, cls) for fi, cls in protocol_functions(M, PARSE_SIDE + ("_build",)))
+    ctl11 = control_model(
+        "class StreamError(Exception):\n    pass\n"
+        "def stream_read(stream, length, path):\n    return stream.read(length)\n"
+        "class Construct(object):\n    pass\n"
+        "class T(Construct):\n"
+        "    def _parse(self, stream, context, path):\n"
+        "        try:\n            stream_read(stream, 1, path)\n"
+        "        except StreamError:\n            return None\n"
+        "        raise ValueError('x')\n")
+    from ..core import Ctx as _Ctx11
+    c11 = _Ctx11("C06", ctx.tier, ctl11.root, model=ctl11)
+    check_stream_swallow(c11, ctl11.method("T", "_parse"), "T")
+    ctx.control("C06.R11", any(not o.ok for o in c11.obligations))
     check_formats(ctx)
     ctx.floor("C06.R10", 20)
     # a terminator narrower than the code unit accepts strict prefixes of canonical encodings (shared with C03.R2)
     from . import C03
     C03.unit_table_check(ctx, "C06.R2")
+    C03.string_macro_expansions(ctx, "C06.R2")      # CString keeps require=True: a string cut before its terminator is a StreamError, not a value
     # ---------------------------------------------------------------- R4 (shared with C13.R5)
     C13.check_swallow(ctx, M, S, rule="C06.R4")
     ctx.floor("C06.R4", 4)
